@@ -141,7 +141,7 @@ impl UnitQuaternion {
     /// `from_rotation_matrix` of a proper rotation reproduces it (nalgebra; assumed)
     #[verifier::external_body]
     pub fn from_rotation_matrix(rot: &Rotation3) -> (r: UnitQuaternion)
-        ensures rot.mfin() ==> r.qfin() && r.m() == rot.m() { unimplemented!() }
+        ensures rot.mfin() ==> r.qfin() && r.m() == rot.m(), r == quat_of_rot_s(*rot) { unimplemented!() }
     #[verifier::external_body]
     pub fn from_axis_angle(axis: &UnitVector3, angle: f64) -> (r: UnitQuaternion)
         ensures fin(angle) ==> r.qfin()
@@ -157,6 +157,9 @@ impl UnitQuaternion {
     { unimplemented!() }
 }
 pub uninterp spec fn angle_between(a: M3, b: M3) -> real;
+/// the values nalgebra's conversions return, as (deterministic) functions of their argument
+pub uninterp spec fn quat_of_rot_s(r: Rotation3) -> UnitQuaternion;
+pub uninterp spec fn rot_of_mat_s(m: Matrix3) -> Rotation3;
 pub uninterp spec fn norm_s(v: Vector3) -> f64;
 pub broadcast axiom fn ax_norm(v: Vector3)
     ensures
@@ -167,7 +170,7 @@ pub broadcast axiom fn ax_norm(v: Vector3)
 impl Rotation3 {
     #[verifier::external_body]
     pub fn from_matrix_unchecked(m: Matrix3) -> (r: Rotation3)
-        ensures forall|i: int, j: int| r.e(i, j) == m.e(i, j) { unimplemented!() }
+        ensures forall|i: int, j: int| r.e(i, j) == m.e(i, j), r == rot_of_mat_s(m) { unimplemented!() }
     /// rule R10: `rot[(i, j)]` is rewritten to `rot.at(i, j)`
     #[verifier::external_body]
     pub fn at(&self, i: usize, j: usize) -> (r: f64)
